@@ -17,8 +17,9 @@ def confirm(name):
     wt = "/tmp/vseed/" + name
     subprocess.run(["git", "-C", "/repo", "worktree", "remove", "--force", wt], capture_output=True)
     os.makedirs("/tmp/vseed", exist_ok=True)
-    subprocess.run(["git", "-C", "/repo", "worktree", "add", "--detach", wt, "HEAD", "-q"], check=True)
-    out = {"at_repo_commit": subprocess.run(["git", "-C", "/repo", "log", "--format=%h", "-1"], capture_output=True, text=True).stdout.strip()}
+    at = os.environ.get("CONFIRM_AT", "HEAD")  # a seed whose patch conflicts textually with a later fix commit is confirmed at the commit before it
+    subprocess.run(["git", "-C", "/repo", "worktree", "add", "--detach", wt, at, "-q"], check=True)
+    out = {"at_repo_commit": subprocess.run(["git", "-C", wt, "log", "--format=%h", "-1"], capture_output=True, text=True).stdout.strip()}
     try:
         demo = open(os.path.join(d, "demo_test.go")).read()
         m = re.search(r"^package (\w+)", demo, re.M)
